@@ -26,7 +26,7 @@ ASSUMPTIONS = [
     "the stand-in's reply formats are those of sugar_extension/CspuzSugarInterface.java",
     "real Sugar/csugar/cspuz_core are absent offline; routes (ii)/(iii) exercise cspuz' side of the protocol only",
 ]
-REQUIRED = ["msolve.solve_judged", "msolve.key_decided", "msolve.key_undecided", "c02.route.z3", "c02.route.adv",
+REQUIRED = ["c02.planted_latin", "c02.planted_latin_judged_by_smt", "msolve.solve_judged", "msolve.key_decided", "msolve.key_undecided", "c02.route.z3", "c02.route.adv",
             "c02.route.native", "c02.tables_compared", "c02.unsat_programs", "c02.iter.ge3",
             "c02.keys.none", "c02.keys.all", "c02.keys.some", "c02.chooser.stubborn", "c02.chooser.scatter", "c02.followup_solves", "c02.ast_facts_checked"]
 CHOOSERS = ["first", "last", "random", "stubborn", "scatter"]
@@ -167,6 +167,11 @@ def run(ctx):
             with ctx.guard(300):
                 run_route(ctx, st, case, "z3", None)
             ctx.count("c02.wide_cases")
+    # larger programs with a planted solution (latin squares with givens), with config.solver_timeout set to small values: the knob
+    # bounds subprocess back ends; whatever a back end does with it, solve() may not report anything but the exact facts
+    for k in range(2 if ctx.tier == "quick" else 12):
+        with ctx.guard(300):
+            planted_latin(ctx, st, rng)
     for k in range(n):
         case = gen_case(rng)
         choosers = CHOOSERS if ctx.tier == "thorough" else rng.sample(CHOOSERS, 2) + ["stubborn"]
@@ -175,6 +180,56 @@ def run(ctx):
         if k < 2:
             ctx.sample(case)
     msolve.uninstall()
+
+
+def planted_latin(ctx, st, rng):
+    import cspuz
+    from cspuz import alldifferent
+
+    n = rng.choice([4, 5, 5, 6])
+    base = list(range(n))
+    rng.shuffle(base)
+    rows = list(range(n))
+    rng.shuffle(rows)
+    sym = list(range(1, n + 1))
+    rng.shuffle(sym)
+    sol = [[sym[(base[x] + rows[y]) % n] for x in range(n)] for y in range(n)]
+    dens = rng.choice([0.0, 0.2, 0.4, 0.6])
+    given = {(y, x) for y in range(n) for x in range(n) if rng.random() < dens}
+    s = cspuz.Solver()
+    a = s.int_array((n, n), 1, n)
+    s.add_answer_key(a)
+    for i in range(n):
+        s.ensure(alldifferent(a[i, :]))
+        s.ensure(alldifferent(a[:, i]))
+    for y, x in given:
+        s.ensure(a[y, x] == sol[y][x])
+    ctx.current_case = {"kind": "planted-latin", "n": n, "solution": sol, "given": sorted(map(list, given))}
+    old_to, old_smt = cspuz.config.solver_timeout, st.smt
+    cspuz.config.solver_timeout = rng.choice([0.001, 0.001, 0.01, 5.0])
+    st.smt = 1  # every key decided by two cvc5 queries
+    try:
+        res = s.solve()
+    finally:
+        cspuz.config.solver_timeout, st.smt = old_to, old_smt
+    ctx.case(["planted-latin", n, sol, sorted(given)], nontrivial=True)
+    ctx.count("c02.planted_latin")
+    if (st.last or {}).get("judged"):
+        ctx.count("c02.planted_latin_judged_by_smt")
+    # independent of the SMT oracle: the planted grid IS a solution, so solve() must say True and may decide no cell differently
+    if res is not True:
+        ctx.violation("planted:solve-says-unsat", f"solve() returned {res!r} for a latin square with a planted solution "
+                      f"(config.solver_timeout={cspuz.config.solver_timeout})", ctx.current_case)
+        return
+    for y in range(n):
+        for x in range(n):
+            got = a[y, x].sol
+            if got is not None and got != sol[y][x]:
+                ctx.violation("planted:key-contradicts-solution", f"cell {(y, x)} reported {got}, the planted solution has {sol[y][x]}", ctx.current_case)
+                return
+            if (y, x) in given and got is None:
+                ctx.violation("planted:given-undecided", f"given cell {(y, x)} reported None", ctx.current_case)
+                return
 
 
 def fixed_cases():
